@@ -599,3 +599,57 @@ def check_serde_declared_length(ctx, res, config="all"):
     else:
         res.ok("R7-serde-declared-length", "Serialize for BigUint", {"cases_evaluated": cases, "per_digit_elements": len(loop_calls), "tail_elements": len(tail_calls)})
     res.clause("R7: the length announced to serialize_seq equals the number of emitted elements for every digit count and top-digit pattern (both evaluated from MIR)")
+
+
+def check_serde_zero_is_empty(ctx, res, config="all"):
+    """zero serializes as the empty sequence: in Serialize for BigUint, on the path where the digit vector is empty (`split_last()`
+    answered None, `is_empty()` held, `len() == 0`) no element is emitted"""
+    from .tests import tests_of, fate
+
+    facts = ctx.facts(config)
+    bs = facts.find(trait="serde::Serialize", self_ty="biguint::BigUint", name="serialize")
+    if len(bs) != 1:
+        res.fail(Finding("R7-anchor-lost", "Serialize for BigUint (zero)", "impl not found", file="src/biguint/serde.rs", line=0))
+        return
+    b0 = bs[0]
+    b = core.inline_private(facts, b0, depth=2)
+    live = b.live_blocks()
+    elems = [i for i, t in b.calls() if callee_name(t) == "serialize_element" and i in live]
+    if not elems:
+        # the sequence is handed over as a whole (collect_seq / a slice's own impl): nothing is emitted element by element
+        res.note("R7-serde-zero-empty: Serialize for BigUint emits no element itself (the sequence is serialized as a whole) - the empty case is not decided here")
+        res.clause("R7: zero serializes as the empty sequence (not decided: no per-element emission)")
+        return
+    tl, atoms = tests_of(b)
+    empty_edges = []
+    for t in tl:
+        # Option discriminant of split_last()/last()/first() on the digit vector
+        if t.values is not None and t.subj is not None and {"split_last", "last", "split_first", "first"} & calls_of(t.subj) and params_of(t.subj) == {1} \
+                and calls_of(t.subj) <= {"split_last", "last", "split_first", "first", "deref", "as_slice", "as_ref", "iter"}:
+            # the None edge: value 0, or `otherwise` of an `if let Some(..)`
+            if 0 in t.values:
+                empty_edges.append((t.bb, t.values[0]))
+            elif 1 in t.values and t.values.get("otherwise") is not None:
+                empty_edges.append((t.bb, t.values["otherwise"]))
+        c = t.cond
+        if c is not None and c.kind == "call" and c.name == "is_empty" and c.args and params_of(c.args[0]) == {1} and t.t is not None:
+            empty_edges.append((t.bb, t.t))
+        if c is not None and c.kind == "cmp" and c.op in ("Eq", "Ne") and (("len" in calls_of(c.a) and 0 in consts_of(c.b)) or ("len" in calls_of(c.b) and 0 in consts_of(c.a))):
+            tgt = t.t if c.op == "Eq" else t.f
+            if tgt is not None:
+                empty_edges.append((t.bb, tgt))
+    if not empty_edges:
+        res.note("R7-serde-zero-empty: no test of the digit vector for emptiness found in Serialize for BigUint - the empty case is not decided")
+        res.clause("R7: zero serializes as the empty sequence (not decided: emptiness test not recognised)")
+        return
+    bad = None
+    for (sb, tgt) in empty_edges:
+        region = b.reachable(tgt, without_blocks=[sb])
+        hit = [e for e in elems if e in region]
+        if hit:
+            bad = (sb, hit[0])
+    if bad:
+        res.fail(Finding("R7-serde-zero-empty", "serialize", "on the path where the digit vector is empty, Serialize for BigUint still emits an element (line %s): zero must be the empty sequence" % b.blocks[bad[1]]["term"]["span"]["line"], b0, b.blocks[bad[1]]["term"]["span"]["line"]))
+    else:
+        res.ok("R7-serde-zero-empty", "serialize", {"empty_paths": len(empty_edges)})
+    res.clause("R7: on the empty-digit-vector path Serialize for BigUint emits no element (zero is the empty sequence)")
